@@ -4,7 +4,7 @@ import random, json
 from ..harness import scn, gen, obs as O, pyeval
 
 pid = 'C01'
-gen_modules = ['tr_state', 'tr_validators', 'tr_has_patcher', 'tr_contracts', 'tr_decorators', 'tr_pin_contracts', 'tr_rest_validators', 'tr_rest_patcher', 'tr_rest_state']
+gen_modules = ['tr_state', 'tr_validators', 'tr_has_patcher', 'tr_contracts', 'tr_decorators', 'tr_pin_contracts', 'tr_rest_validators', 'tr_rest_patcher', 'tr_rest_state', 'tr_rest_contractsconst']
 model_targets = ['Sem/Scenario.v']
 hand_modelled = ['coq/Py/Sig.v (CPython call binding; validated against CPython in this family)',
                  'coq/Sem/Model.v: Validator.init mode selection (vaa branch excluded), calling a raw validator']
